@@ -186,6 +186,10 @@ func (vc *VC) valName(v ssa.Value) string {
 	case *ssa.FreeVar:
 		return "fv_" + n
 	}
+	if vc.inlineTag != "" {
+		// a value of a helper executed in place at a call site
+		return "v_" + vc.inlineTag + "_" + n
+	}
 	return "v_" + n
 }
 
@@ -542,7 +546,9 @@ func (vc *VC) run() (err error) {
 						if sp := vc.P.findSpec(callee); sp != nil && !sp.Extern && !sp.IsSync && !sp.Pure && !sp.Trusted {
 							what = "call of " + sp.Name + ", whose contract is not marked synchronous"
 						} else if sp == nil && callee.Pkg != nil && strings.HasPrefix(callee.Pkg.Pkg.Path(), logPath) {
-							what = "call of " + vc.P.specName(callee) + ", which has no contract"
+							if why := vc.helperNotSynchronous(callee, 0); why != "" {
+								what = "call of " + vc.P.specName(callee) + ", which has no contract and " + why
+							}
 						}
 					}
 				}
@@ -657,6 +663,38 @@ func (vc *VC) run() (err error) {
 	}
 	vc.curBlock = nil
 	return nil
+}
+
+// helperNotSynchronous: a helper without contract that is executed in place (see tryInline) is part of the
+// synchronous path when it contains no go statement, channel operation or deferred call itself and calls
+// only synchronous functions; otherwise the reason is returned.
+func (vc *VC) helperNotSynchronous(f *ssa.Function, depth int) string {
+	if depth >= maxInlineDepth || !vc.inlinable(f) {
+		return "is not a loop-free helper that can be followed"
+	}
+	for _, b := range f.Blocks {
+		for _, in := range b.Instrs {
+			switch x := in.(type) {
+			case *ssa.Go, *ssa.Defer, *ssa.Send, *ssa.Select, *ssa.MakeChan:
+				return "contains a go statement, channel operation or deferred call"
+			case *ssa.UnOp:
+				if x.Op == token.ARROW {
+					return "contains a channel receive"
+				}
+			case *ssa.Call:
+				if callee := x.Common().StaticCallee(); callee != nil && !x.Common().IsInvoke() {
+					if sp := vc.P.findSpec(callee); sp != nil && !sp.Extern && !sp.IsSync && !sp.Pure && !sp.Trusted {
+						return "calls " + sp.Name + ", whose contract is not marked synchronous"
+					} else if sp == nil && callee.Pkg != nil && strings.HasPrefix(callee.Pkg.Pkg.Path(), logPath) {
+						if why := vc.helperNotSynchronous(callee, depth+1); why != "" {
+							return "calls " + vc.P.specName(callee) + ", which " + why
+						}
+					}
+				}
+			}
+		}
+	}
+	return ""
 }
 
 // deferHandler: the function a defer statement registers, when it is statically known.
